@@ -1,3 +1,206 @@
 package main
 
-func planC13(tier string) []phase { return []phase{{Name: "", Shards: 1}} }
+import (
+	"bufio"
+	"fmt"
+	"os"
+	"path/filepath"
+	"regexp"
+	"strings"
+	"time"
+)
+
+func planC13(tier string) []phase {
+	hist, combos := 6, 4
+	if tier == "thorough" {
+		hist, combos = 40, 8
+	}
+	ps := []phase{
+		{Name: "ref", Shards: 1},
+		{Name: "hist", Shards: hist},
+		{Name: "conc", Shards: combos, Race: true, Serial: tier != "thorough", Timeout: 40 * time.Minute,
+			Env: []string{"GORACE=halt_on_error=0 exitcode=0 log_path=%DIR%/race-%SHARD%", "GOMAXPROCS=16"}},
+	}
+	if tier == "thorough" {
+		ps = append(ps, phase{Name: "strace", Shards: 1, Strace: true})
+	}
+	return ps
+}
+
+func init() {
+	postPhase["C13"] = func(r *run, ph *phase, kids []*child) {
+		// silence: fd 1 and fd 2 of every child must be empty
+		for _, k := range kids {
+			quiet := true
+			for _, f := range []struct{ name, path string }{{"stdout", k.stdout}, {"stderr", k.stderr}} {
+				st, err := os.Stat(f.path)
+				if err != nil || st.Size() == 0 {
+					continue
+				}
+				if k.exit != 0 || k.timedOut {
+					continue // a dying child's traceback is not library output; handled by collect()
+				}
+				quiet = false
+				r.addViolation("output:"+f.name, "C13.silence",
+					fmt.Sprintf("child %s/%d wrote %d bytes to %s while running the workload: %q", ph.Name, k.shard, st.Size(), f.name, trunc(head(f.path, 300), 300)),
+					mustJSON(map[string]any{"kind": "output", "stream": f.name, "phase": ph.Name}), 1)
+			}
+			if quiet {
+				r.counters["silent_children"]++
+			}
+			r.counters["output_bytes_checked_children"]++
+		}
+		switch ph.Name {
+		case "conc":
+			scanRaceLogs(r)
+			n, m := int64(0), int64(0)
+			for name := range r.counters {
+				if strings.HasPrefix(name, "max:overlap_") {
+					n++
+				}
+				if strings.HasPrefix(name, "max:slice_") {
+					m++
+				}
+			}
+			r.counters["fn_pairs_overlapped"] = n
+			r.counters["shared_slices_used_concurrently"] = m
+		case "strace":
+			for _, k := range kids {
+				scanStrace(r, k)
+			}
+		}
+	}
+}
+
+var reFrame = regexp.MustCompile(`^\s+([A-Za-z0-9_./()*\-]+)\(\)$`)
+
+// scanRaceLogs counts and de-duplicates the race detector's reports.
+func scanRaceLogs(r *run) {
+	files, _ := filepath.Glob(filepath.Join(r.dir, "race-*"))
+	total := 0
+	for _, f := range files {
+		fh, err := os.Open(f)
+		if err != nil {
+			continue
+		}
+		sc := bufio.NewScanner(fh)
+		sc.Buffer(make([]byte, 1<<20), 16<<20)
+		var block []string
+		flush := func() {
+			if len(block) == 0 {
+				return
+			}
+			total++
+			// outermost/innermost library frames of the report
+			var libFrames, allFrames []string
+			for _, l := range block {
+				if m := reFrame.FindStringSubmatch(l); m != nil {
+					allFrames = append(allFrames, m[1])
+					if strings.Contains(m[1], "go-spdx") {
+						libFrames = append(libFrames, m[1])
+					}
+				}
+			}
+			key := "race:harness-only"
+			rule := "C13.race"
+			if len(libFrames) > 0 {
+				key = "race:" + shortFrame(libFrames[0])
+				if len(libFrames) > 1 {
+					key += "~" + shortFrame(libFrames[len(libFrames)-1])
+				}
+			}
+			if len(libFrames) == 0 {
+				r.inconcl = append(r.inconcl, "data race without a library frame (harness bug?): "+trunc(strings.Join(allFrames, " <- "), 300))
+			} else {
+				r.addViolation(key, rule, "the Go race detector reported a data race between concurrent library calls: "+trunc(strings.Join(block, " | "), 1500),
+					mustJSON(map[string]any{"kind": "race", "report": block}), 1)
+			}
+			block = nil
+		}
+		in := false
+		for sc.Scan() {
+			line := sc.Text()
+			if strings.Contains(line, "WARNING: DATA RACE") {
+				flush()
+				in = true
+			}
+			if in {
+				if strings.HasPrefix(line, "==================") && len(block) > 0 {
+					flush()
+					in = false
+					continue
+				}
+				if len(block) < 80 {
+					block = append(block, line)
+				}
+			}
+		}
+		flush()
+		fh.Close()
+	}
+	r.counters["race_reports"] += int64(total)
+	r.counters["race_logs_scanned"] += int64(len(files))
+}
+
+func shortFrame(f string) string {
+	if i := strings.LastIndex(f, "/"); i >= 0 {
+		f = f[i+1:]
+	}
+	return f
+}
+
+var reStraceLine = regexp.MustCompile(`^(\d+)\s+([a-z0-9_]+)\((.*)$`)
+
+// scanStrace checks that between the worker's VERIF-BEGIN / VERIF-END markers nothing was written to
+// fd 1/2 and no file, socket or process was opened.
+func scanStrace(r *run, k *child) {
+	fh, err := os.Open(k.straceF)
+	if err != nil {
+		r.inconcl = append(r.inconcl, "strace log missing (strace could not attach?): "+strings.TrimSpace(tail(k.stderr, 300)))
+		return
+	}
+	defer fh.Close()
+	sc := bufio.NewScanner(fh)
+	sc.Buffer(make([]byte, 1<<20), 16<<20)
+	inside, sawBegin, sawEnd := false, false, false
+	var lines int64
+	for sc.Scan() {
+		line := sc.Text()
+		if strings.Contains(line, "VERIF-BEGIN") {
+			inside, sawBegin = true, true
+			continue
+		}
+		if strings.Contains(line, "VERIF-END") {
+			inside, sawEnd = false, true
+			continue
+		}
+		if !inside {
+			continue
+		}
+		m := reStraceLine.FindStringSubmatch(line)
+		if m == nil {
+			continue
+		}
+		lines++
+		sys, args := m[2], m[3]
+		bad := ""
+		switch sys {
+		case "write":
+			if strings.HasPrefix(args, "1,") || strings.HasPrefix(args, "2,") {
+				bad = "write to fd " + args[:1]
+			}
+		case "openat", "open", "creat", "socket", "connect", "unlink", "unlinkat", "rename", "renameat", "mkdir", "mkdirat", "execve", "sendto", "sendmsg":
+			bad = sys
+		}
+		if bad != "" {
+			r.addViolation("syscall:"+bad, "C13.silence", "between the workload markers the process made the system call "+trunc(line, 300),
+				mustJSON(map[string]any{"kind": "strace", "line": line}), 1)
+		}
+	}
+	r.counters["strace_syscalls_inspected"] += lines
+	if !sawBegin || !sawEnd {
+		r.inconcl = append(r.inconcl, "strace log lacks the workload markers")
+	} else {
+		r.counters["strace_runs"]++
+	}
+}
